@@ -3,7 +3,7 @@
    functions map to OCaml's); nat, positive, N, Z and byte stay the extracted inductives. *)
 From Coq Require Extraction.
 From Coq Require Import ExtrOcamlBasic.
-From KV Require Import Lib.Bytes Model.Date Spec.Calendar Model.Router Spec.RouterSpec Model.Headers Spec.HeaderStore Model.Parser Spec.HttpGrammar Spec.ClSpec Model.Body Model.BodyIntr Spec.ChunkedSpec Model.Server Spec.Framing Spec.ConnSpec Spec.ConnKnown Model.Printer Spec.MessageSpec Spec.PrinterSpec Spec.PrinterSpecGen Model.Pool Model.Epoll Model.Memory.
+From KV Require Import Lib.Bytes Model.Date Spec.Calendar Model.Router Spec.RouterSpec Model.Headers Spec.HeaderStore Model.Parser Spec.HttpGrammar Spec.ClSpec Model.Body Model.BodyIntr Model.BodyFail Spec.ChunkedSpec Model.Server Spec.Framing Spec.ConnSpec Spec.ConnKnown Model.Printer Spec.MessageSpec Spec.PrinterSpec Spec.PrinterSpecGen Model.Pool Model.Epoll Model.Memory.
 
 Extraction Language OCaml.
 Extraction "model.ml"
@@ -15,6 +15,7 @@ Extraction "model.ml"
   Parser.parse_request Parser.parse_response Parser.method_str Parser.uri_path Parser.uri_query Parser.uri_scheme Parser.uri_authority Parser.uri_path_and_query
   HttpGrammar.strict_head HttpGrammar.headers_of HttpGrammar.sfield_pairs HttpGrammar.render HttpGrammar.rfc_head HttpGrammar.cl_consistent ClSpec.cl_consistent_rfc
   HttpGrammar.target_path HttpGrammar.target_query HttpGrammar.field_pairs HttpGrammar.render_target
+  BodyFail.new_fixed_f BodyFail.new_chunked_f BodyFail.body_read_f BodyFail.body_fill_buf_f BodyFail.body_consume_f
   BodyIntr.new_fixed_e BodyIntr.new_chunked_e BodyIntr.body_read_e BodyIntr.body_fill_buf_e BodyIntr.body_consume_e BodyIntr.read_all_e BodyIntr.bufread_all_e
   Body.new_fixed Body.new_chunked Body.new_eof Body.new_empty Body.read_all Body.bufread_all Body.drain Body.body_src Body.src_rest
   ChunkedSpec.spec_decode ChunkedSpec.spec_fixed
